@@ -309,4 +309,83 @@ theorem loop_seg_at (evs : List Event) (s : St σ) (b : Bytes) (pre : List Seg) 
 
 end loopl
 
+/-! ## redacted writes -/
+
+/-- a redacted write -/
+def isRed : Ev → Bool
+  | .write _ true => true
+  | _ => false
+
+theorem split_unique {α : Type} (P : α → Bool) (pre post l1 l2 : List α) (a a' : α)
+    (h : pre ++ a :: post = l1 ++ a' :: l2) (ha : P a = true)
+    (h1 : ∀ y ∈ l1, P y = false) (h2 : ∀ y ∈ l2, P y = false) :
+    pre = l1 ∧ a = a' ∧ post = l2 := by
+  induction pre generalizing l1 with
+  | nil =>
+    cases l1 with
+    | nil => simpa using h
+    | cons y l1' =>
+      simp only [List.nil_append, List.cons_append, List.cons.injEq] at h
+      have := h1 y (by simp)
+      rw [← h.1, ha] at this
+      exact absurd this (by simp)
+  | cons p pre' ih =>
+    cases l1 with
+    | nil =>
+      simp only [List.cons_append, List.nil_append, List.cons.injEq] at h
+      have := h2 a (by rw [← h.2]; simp)
+      rw [ha] at this
+      exact absurd this (by simp)
+    | cons y l1' =>
+      simp only [List.cons_append, List.cons.injEq] at h
+      obtain ⟨e1, e2, e3⟩ := ih l1' h.2 (fun z hz => h1 z (by simp [hz]))
+      exact ⟨by rw [h.1, e1], e2, e3⟩
+
+theorem isRed_dels (cs : List Bytes) : ∀ y ∈ dels cs, isRed y = false := by
+  intro y hy
+  simp only [dels, List.mem_map] at hy
+  obtain ⟨c, _, rfl⟩ := hy
+  rfl
+
+/-- after its first event (the input write) a segment's trace has no redacted write -/
+theorem isRed_seg_tail (g : Seg) :
+    ∃ t, g.trace = Ev.write g.input g.hidden :: t ∧ ∀ y ∈ t, isRed y = false := by
+  refine ⟨_, rfl, ?_⟩
+  intro y hy
+  simp only [List.mem_append] at hy
+  rcases hy with hy | hy
+  · exact isRed_dels _ y hy
+  · split at hy
+    · simp at hy
+    · simp only [List.mem_cons] at hy
+      rcases hy with rfl | hy
+      · rfl
+      · exact isRed_dels _ y hy
+
+theorem isRed_seg_visible (g : Seg) (h : g.hidden = false) : ∀ y ∈ g.trace, isRed y = false := by
+  obtain ⟨t, ht, htn⟩ := isRed_seg_tail g
+  intro y hy
+  rw [ht] at hy
+  simp only [List.mem_cons] at hy
+  rcases hy with rfl | hy
+  · simp [isRed, h]
+  · exact htn y hy
+
+theorem loop_segs_length {σ : Type} (cfg : Cfg) (complete : List (Bytes → Bool)) (dev : Dev σ)
+    (evs : List Event) (s : St σ) (b : Bytes) :
+    (loop cfg complete dev evs s b).segs.length ≤ evs.length := by
+  induction evs generalizing s b with
+  | nil => simp [loop]
+  | cons e es ih =>
+    simp only [loop]
+    split <;> simp
+    exact ih _ _
+
+theorem loop_segs_ne_nil {σ : Type} (cfg : Cfg) (complete : List (Bytes → Bool)) (dev : Dev σ)
+    (e : Event) (es : List Event) (s : St σ) (b : Bytes) :
+    (loop cfg complete dev (e :: es) s b).segs ≠ [] := by
+  simp only [loop]
+  split <;> simp
+
+
 end Scrapli.Inter
